@@ -215,6 +215,14 @@ func (te *tableEngine) batchAddPlayers(players []JoinPlayer) error {
 
 	if len(playerRandomSeatIDs) > 0 {
 		if err := te.sm.RandomAssignSeats(playerRandomSeatIDs); err != nil {
+			// give back the fixed seats of this batch: a refused batch changes nothing
+			if len(playerSeatIDs) > 0 {
+				fixedPlayerIDs := make([]string, 0)
+				for playerID := range playerSeatIDs {
+					fixedPlayerIDs = append(fixedPlayerIDs, playerID)
+				}
+				te.sm.RemoveSeats(fixedPlayerIDs)
+			}
 			return err
 		}
 	}
